@@ -92,8 +92,8 @@ def compose_models_flat(models_map: Dict[Index, ModelMeta]) -> ModelsStructureTy
             parents = {ptr.parent.index for ptr in pointers}
             struct = structure_hash_table[key]
             # Model is using by other models
-            if has_root_pointers or len(parents) > 1 and len(struct["roots"]) >= 1:
-                # Model is using by different root models
+            if has_root_pointers or len(parents) > 1:
+                # Model is using by different models
                 if parents & top_level_models:
                     parents.add("root")
                 parents_positions = {positions[parent_key] for parent_key in parents
